@@ -62,7 +62,7 @@ def where(fr, e):
 
 
 def call_repo(I, f, args, kwargs, e, fr, closure=None, self_val=None):
-    I.events.append(("call", f.fq, tuple(args), dict(kwargs), where(fr, e), fr.func.fq, e))
+    I.events.append(("call", f.fq, tuple(args), dict(kwargs), where(fr, e), fr.func.fq, e, tuple(I.swallow)))
     has_ref_circuit = any(isinstance(a, Ref) and I.heap[a.oid].kind == "circuit" for a in list(args) + list(kwargs.values()))
     has_ref_obj = (f.cls is not None and not f.is_static and bool(args) and isinstance(args[0], Ref)
                    and I.heap[args[0].oid].kind == "record" and I.heap[args[0].oid].cls is not None
@@ -171,6 +171,9 @@ def shallow_copy(I, v, e, fr):
     if o is None:
         return v if isinstance(v, (Const,)) else I.derive("copy", v)
     n = I.alloc(o.kind, site=where(fr, e), cls=o.cls)
+    if o.kind == "circuit" and o.origin[0] != "fresh":
+        # a shallow copy of a circuit shares its instruction list with the original
+        n.origin = o.origin
     n.fields = dict(o.fields)
     n.elem, n.items, n.term, n.width = o.elem, (list(o.items) if o.items is not None else None), o.term, o.width
     n.meta = dict(o.meta)
